@@ -20,7 +20,7 @@ Merge(a, b) == [k \in (DOMAIN a) \cup (DOMAIN b) |-> IF k \in DOMAIN b THEN b[k]
 T1 == [id |-> "app-a", ver |-> "1.2.3.4", fp |-> None, cohort |-> [id |-> Some("c1"), hint |-> None, name |-> None],
        uc |-> Some(5), extra |-> <<>>]
 T2 == [id |-> "app-a", ver |-> "9.9.0.0", fp |-> Some("fp2"), cohort |-> [id |-> None, hint |-> Some("h2"), name |-> Some("")],
-       uc |-> None, extra |-> [k1 |-> "v1"]]
+       uc |-> None, extra |-> [k0 |-> "v0", k1 |-> "v1", k2 |-> "v2", k3 |-> "v3", k4 |-> "v4", k5 |-> "v5", k6 |-> "v6"]]
 T3 == [id |-> "app-b", ver |-> "0.0.0.1", fp |-> None, cohort |-> [id |-> None, hint |-> None, name |-> None],
        uc |-> Some(0), extra |-> <<>>]
 Templates == [t1 |-> T1, t2 |-> T2, t3 |-> T3]
